@@ -52,9 +52,9 @@ ASSUMPTIONS = ["granularity: execute (check, parameter handling, start_run), eve
                "timestamps (durations) are not compared"]
 EXPLANATION = ("The model follows /repo as it is now (after fix commits 5d55599b: status readable during a synchronous "
                "run, and 53f68db6: progress_callback keyword consumed); the pre-repair behaviour is kept in the model as "
-               "code_3e543e6e for the historical ..._old_code theorems and is cross-checked here against its recorded "
-               "witnesses only.  Open finding: a task ending with a BaseException that is not an Exception is reported "
-               "SUCCESS (async) or stays RUNNING (sync).")
+               "code_3e543e6e / code_before_92fc55a7 for the historical ..._old_code theorems and is cross-checked here "
+               "against its recorded witnesses only.  No open finding: since 92fc55a7 a task ending with a BaseException "
+               "or an unprintable exception ends ERROR (the non-Exception is re-raised after ERROR is recorded).")
 
 WATCHDOG = 10.0
 PARALLEL = 1
@@ -150,8 +150,21 @@ ESCAPE_SHAPES = [
 ]
 
 
+def esc_out(ty, m):
+    """model outcome of an escape shape: (2, ty, m, reraise); reraise = it is not an Exception"""
+    ty %= len(ESCAPE_SHAPES)
+    return (2, ty, m, not isinstance(ESCAPE_SHAPES[ty][1](m), Exception))
+
+
 def expected_messages(out):
-    """the acceptable stop messages for the raised shape: '<type>: <str(e)>' (and '<type>: <str(only argument)>')"""
+    """the acceptable stop messages for the raised shape: '<type>: <str(e)>' (and '<type>: <str(only argument)>');
+    '<type>: <unprintable exception>' when str(e) raises"""
+    if out[0] == 2:
+        e = ESCAPE_SHAPES[out[1] % len(ESCAPE_SHAPES)][1](out[2])
+        try:
+            return {type(e).__name__ + ": " + str(e)}
+        except Exception:
+            return {type(e).__name__ + ": <unprintable exception>"}
     e = EXC_SHAPES[out[1] % len(EXC_SHAPES)][1](out[2])
     acc = {type(e).__name__ + ": " + str(e)}
     if len(e.args) == 1:
@@ -291,7 +304,7 @@ class Run:
         if out[0] == 1:
             self.raised = EXC_SHAPES[out[1] % len(EXC_SHAPES)][1](out[2])
             raise self.raised
-        self.raised = ESCAPE_SHAPES[pay % len(ESCAPE_SHAPES)][1](pay)
+        self.raised = ESCAPE_SHAPES[out[1] % len(ESCAPE_SHAPES)][1](out[2])
         raise self.raised
 
     # ---- controller side
@@ -438,8 +451,8 @@ class Run:
                 kind, v = self.sync_outcome
                 if kind == "ret":
                     obs.append([7, [0, enc_ores(v)]])
-                elif v is self.raised and self.prog[1][0] == 2 or isinstance(v, StrFailure):
-                    obs.append([5])     # the task's own exception (or the failure of its str()) came out of execute_sync
+                elif v is self.raised and self.prog[1][0] == 2:
+                    obs.append([5])     # the task's own non-Exception came out of execute_sync (re-raised)
                 elif isinstance(v, AttributeError):
                     obs.append([7, [2]])
                 elif isinstance(v, RuntimeError):
@@ -496,7 +509,9 @@ def enc_msg(m, out=None):
         return ["message-not-a-string", repr(m)]
     if m == "User has canceled the job":
         return [1]
-    if out is not None and out[0] == 1 and m in expected_messages(out):
+    if m == "The job thread stopped without reporting":
+        return [3]
+    if out is not None and out[0] in (1, 2) and m in expected_messages(out):
         return [2, out[1], out[2]]
     return ["unrecognised-message", m]
 
@@ -596,12 +611,12 @@ def enc_event(ev):
     return list(ev)
 
 
-def model_request(cfg, prog, events, old_code=False):
+def model_request(cfg, prog, events, old_code=False, version=None):
     names, cmd0, mapp0, has_map, ucb0 = cfg
     steps, out, coop, shape, pay, ppay, iters = unpack(prog)
     enc = lambda d: [[k, ([] if v is None else v)] for k, v in d]
     return (1800, [[list(names), enc(cmd0), enc(mapp0), int(has_map), [] if ucb0 is None else ucb0] +
-                   ([[1, 1]] if old_code else []),
+                   ([version] if version else [[1, 1, 1]] if old_code else []),
                    [[list(s) for s in steps], list(out), int(coop), shape, pay, ppay, [[ep, enc(it)] for ep, it in iters]],
                    [enc_event(e) for e in events]])
 
@@ -769,7 +784,7 @@ def describe(cfg, prog, inline, events):
             "callback_at_construction": ucb0, "task": {"progress": [list(s) for s in steps],
             "outcome": ["return", "raise Exception", "raise BaseException"][out[0]],
             "exception": (EXC_SHAPES[out[1] % len(EXC_SHAPES)][0] + f" (m={out[2]})" if out[0] == 1 else
-                          ESCAPE_SHAPES[pay % len(ESCAPE_SHAPES)][0] if out[0] == 2 else None),
+                          ESCAPE_SHAPES[out[1] % len(ESCAPE_SHAPES)][0] if out[0] == 2 else None),
             "cooperative": bool(coop),
             "result_key": {0: "results", 1: "results_list"}.get(shape, "other"),
             "iterations": [{name_of(k): v for k, v in it} for _, it in iters]},
@@ -867,16 +882,17 @@ def spec_checks(ctx):
     witness(ctx, "status-AttributeError-during-sync-run", std_cfg, prog, True, events, 1, [8, [0, 1, 0, 0, []]],
             "LocalJob.status / is_running / get_results raise AttributeError ('NoneType' object has no attribute "
             "'is_alive') when queried during a synchronous run instead of reporting RUNNING")
-    # 2. a task ending with a BaseException must not be reported successful (open)
-    prog = ((), (2,), False, 0, 4, 6)
+    # 2. a task ending with a BaseException must not be reported successful (repaired by 92fc55a7)
+    prog = ((), esc_out(0, 4), False, 0, 4, 6)
     events = [(4, 1, (3,), (), False), (0,), (1,)]
     witness(ctx, "BaseException-task-reported-success", std_cfg, prog, False, events, 2, "status ERROR (3)",
             "a task that ends with a BaseException which is not an Exception (SystemExit, KeyboardInterrupt, ...) "
             "is reported SUCCESS with results None by an asynchronous job (the dead-worker repair in LocalJob.status); "
             "a synchronous job stays RUNNING",
             ok=lambda o: o[0] == 8 and o[1][0] == 0 and o[1][1] == 3)
-    # 2b. the same for an Exception that cannot be rendered: str(e) raises inside the wrapper's own handler (open)
-    prog = ((), (2,), False, 0, 5, 6)
+    # 2b. the same for an Exception that cannot be rendered: str(e) raised inside the wrapper's own handler
+    #     (repaired by 92fc55a7)
+    prog = ((), esc_out(4, 5), False, 0, 5, 6)
     witness(ctx, "unprintable-exception-task-reported-success", std_cfg, prog, False, events, 2, "status ERROR (3)",
             "a task that raises an Exception whose str() raises (unprintable argument or __str__) makes "
             "_call_fn_safe's own handler fail: an asynchronous job is then reported SUCCESS with results None, a "
@@ -904,7 +920,18 @@ def historical_model_checks(ctx):
     outs = ctx.model.run(reqs)
     got = [outs[0][1][0], outs[1][1][0], outs[2][0][0], outs[3][0][0]]
     want = [[[8, [1]]], [[8, [0, 1, 0, 0, []]]], [[11, [2, [1, [1]]]]], [[11, [0]], [1]]]
-    ctx.count("historical-model-witness", 4)
+    # code before 92fc55a7: a BaseException / an unprintable exception, asynchronous run, then status -> SUCCESS;
+    # current code -> ERROR with the exception's type and message
+    ev_e = [(4, 1, (3,), (), False), (0,), (1,)]
+    pre3 = [0, 0, 1]
+    for o in (esc_out(0, 4), esc_out(4, 5)):
+        pe = ((), o, False, 0, 5, 6)
+        r2 = [model_request(std_cfg, pe, ev_e, version=pre3), model_request(std_cfg, pe, ev_e)]
+        o2 = ctx.model.run(r2)
+        reqs += r2
+        got += [o2[0][2][0], o2[1][2][0]]
+        want += [[[8, [0, 2, 1000, 0, []]]], [[8, [0, 3, 0, 0, [2, o[1], o[2]]]]]]
+    ctx.count("historical-model-witness", len(want))
     if got != want:
         ctx.fail("model-code-versions", "the two code versions of the model do not answer as recorded",
                  {"requests": "status during sync run / progress_callback keyword, old and current code"},
@@ -970,13 +997,13 @@ def run(ctx):
     cfg = ((10,), ((10, None),), ((20, None),), True, 7)
     for is_async in (0, 1):
         for inline in (False, True):
-            for out in ((0,), (1, 2, 3), (2,)):       # return / KeyError(3) / a BaseException
+            for out in ((0,), (1, 2, 3), esc_out(2 * int(inline) + is_async, 4)):   # return / KeyError(3) / a BaseException
                 for coop in (False, True):
                     if coop and out[0] != 0:
                         continue      # a cooperative task differs only by its early return
                     for r in (0, 1, 2):
                         steps = tuple((250 * (j + 1), j + 1) for j in range(r))
-                        prog = (steps, out, coop, 0, 5 if out[0] != 2 else 2 * int(inline) + is_async, 6)
+                        prog = (steps, out, coop, 0, 5, 6)
                         main = (4, is_async, (3,), (), False)
                         second = (4, is_async, (3,), (), False)
                         for k in range((kmax if r <= 1 or not ctx.quick() else 2) + 1):
@@ -1007,7 +1034,7 @@ def run(ctx):
         is_async = g.below(2)
         r = g.below(4)
         steps = tuple((g.choice([0, 125, 250, 500, 750, 1000]), g.below(4)) for _ in range(r))
-        out = g.choice([(0,), (0,), (1, g.below(len(EXC_SHAPES)), g.below(50)), (2,)])
+        out = g.choice([(0,), (0,), (1, g.below(len(EXC_SHAPES)), g.below(50)), esc_out(g.below(len(ESCAPE_SHAPES)), g.below(50))])
         shape = g.choice([0, 0, 1, 1, 2])
         prog = (steps, out, bool(g.below(2)), shape, g.below(100), 100 + g.below(100), rand_iters(g) if shape == 1 else ())
         cfg = ((10, 11), ((10, None), (11, 4 if g.below(2) else None)), ((20, None),) if g.below(2) else (),
@@ -1093,8 +1120,8 @@ def run(ctx):
     # must end ERROR with a string message, refuse results, not stay RUNNING; execute_sync must end as the model says
     cases = []
     for ty in range(len(EXC_SHAPES) + len(ESCAPE_SHAPES)):
-        out = (1, ty, 3 + ty) if ty < len(EXC_SHAPES) else (2,)
-        pay = 5 if out[0] == 1 else ty - len(EXC_SHAPES)
+        out = (1, ty, 3 + ty) if ty < len(EXC_SHAPES) else esc_out(ty - len(EXC_SHAPES), 3 + ty)
+        pay = 5
         for is_async in (0, 1):
             for inline in (False, True):
                 for preset in (False, True):
